@@ -14,6 +14,25 @@ import (
 	"github.com/cosi-project/runtime/pkg/controller/runtime/zzverif/simrt"
 )
 
+// TestMain warms up every one-time initialisation path (sync.Once values, registries, lazily built tables) before
+// any recorded run, so that the first run of a process behaves exactly like every later one - otherwise a case found
+// late in a worker would not replay as the first case of a fresh process.
+func TestMain(m *testing.M) {
+	warmup()
+	os.Exit(m.Run())
+}
+
+func warmup() {
+	// nothing may run outside a bubble here: goroutines started outside would outlive into the first simulation.
+	// One-time initialisation is absorbed by warmupProp (simulated warm-up cases) in every entry point.
+}
+
+func warmupProp(t *testing.T, p Property) {
+	for i := uint64(0); i < 3; i++ {
+		p.Run(t, p.Gen(simrt.Mix(0xabcdef, i), "quick"), false)
+	}
+}
+
 func envInt(name string, def int64) int64 {
 	if v := os.Getenv(name); v != "" {
 		n, err := strconv.ParseInt(v, 10, 64)
@@ -66,6 +85,7 @@ type ViolationRec struct {
 	Signature string `json:"signature"`
 	Msg       string `json:"msg"`
 	CaseFile  string `json:"case_file"`
+	Index     int    `json:"index"`
 }
 
 // TestWorker runs seeded cases of one property until the budget is used up.
@@ -93,12 +113,13 @@ func TestWorker(t *testing.T) {
 	if k := os.Getenv("VERIF_KNOWN"); k != "" {
 		known = strings.Split(k, "\x1f")
 	}
+	warmupProp(t, p)
 	sum := &Summary{Rule: p.Rule(), Prop: id, Shard: shard, Probes: map[string]int{}, Faults: map[string]int{}, SwitchPairs: map[string]bool{}}
 	sum.Real, sum.Stub = p.Components()
 	hashes := map[uint64]bool{}
 	start := time.Now()
 	sigSeen := map[string]int{}
-	for i := 0; i < maxRuns && time.Since(start) < budget; i++ {
+	for i := int(envInt("VERIF_FIRST", 0)); i < maxRuns && time.Since(start) < budget; i++ {
 		seed := simrt.Mix(base, propHash(id), uint64(shard), uint64(i))
 		c := p.Gen(seed, tier)
 		out := p.Run(t, c, false)
@@ -160,7 +181,7 @@ func TestWorker(t *testing.T) {
 				}
 				continue
 			}
-			rec := ViolationRec{Seed: seed, Oracle: out.Viol.Oracle, Signature: out.Viol.Signature, Msg: out.Viol.Msg}
+			rec := ViolationRec{Index: i, Seed: seed, Oracle: out.Viol.Oracle, Signature: out.Viol.Signature, Msg: out.Viol.Msg}
 			if outDir != "" {
 				b, _ := json.MarshalIndent(c, "", " ")
 				rec.CaseFile = filepath.Join(outDir, fmt.Sprintf("viol-%s-%d-%d.json", id, shard, seed))
@@ -219,6 +240,7 @@ func TestReplay(t *testing.T) {
 		return
 	}
 	verbose := os.Getenv("VERIF_TRACE") != ""
+	warmupProp(t, p)
 	out := p.Run(t, c, verbose)
 	if verbose {
 		for _, l := range out.Trace {
@@ -249,6 +271,7 @@ func TestMinimise(t *testing.T) {
 	if p == nil {
 		return
 	}
+	warmupProp(t, p)
 	first := p.Run(t, c, false)
 	if first.Viol == nil {
 		fmt.Printf("MINIMISE not-reproduced\n")
@@ -288,7 +311,14 @@ func TestHashes(t *testing.T) {
 	base := uint64(envInt("VERIF_SEED", 1))
 	n := int(envInt("VERIF_HASHES", 40))
 	tier := os.Getenv("VERIF_TIER")
-	for i := 0; i < n; i++ {
+	warmupProp(t, p)
+	reverse := os.Getenv("VERIF_REVERSE") != ""
+	for k := 0; k < n; k++ {
+		i := k
+		if reverse {
+			// process-position independence: the same seeds in the opposite order must give the same hashes
+			i = n - 1 - k
+		}
 		seed := simrt.Mix(base, propHash(id), 0, uint64(i))
 		out := p.Run(t, p.Gen(seed, tier), false)
 		v := "ok"
